@@ -125,6 +125,9 @@ def report_pair(ctx, got, want, impl_v, model_v, where):
 def run(ctx):
     checker = _impl()
     from xdoctest import directive
+    # "with ELLIPSIS disabled '...' has no special meaning" on every comparison path of a part (stdout, value, fallback)
+    from harness.props import c02
+    c02.gvw_unit(ctx)
     quick = ctx.tier == 'quick'
     maxgot = 5 if quick else 6
     maxwant_marker = 6 if quick else 7
@@ -315,6 +318,9 @@ def _rand_worker(pairs):
 def replay(path):
     checker = _impl()
     d = json.load(open(path))
+    if d.get('kind') == 'gvw-unit':
+        from harness.props import c02
+        return c02.replay_gvw(d, path, 'C06')
     got, want = d.get('got'), d.get('want')
     if got is None or want is None:
         print('replay file names no input:', d.get('theorem_or_correspondence'))
